@@ -218,6 +218,43 @@ fn emit_sheet(rng: &mut Rng, out: &mut dyn Write, sh: &Sheet, nrows: usize, subs
     writeln!(out, "row {} {} {}", hf, rows, miss).unwrap();
 }
 
+/// one `names` case (random root list; `i` cycles the version through its boundary values)
+fn root_list(rng: &mut Rng, i: usize) -> String {
+    let n = match rng.below(5) { 0 => 0, 1 => 1, 2 | 3 => rng.range(2, 10), _ => rng.range(10, 60) } as usize;
+    let mut es = Vec::new();
+    for _ in 0..n {
+        let lo = if rng.chance(1, 30) { 0 } else { 1 };
+        let len = rng.range(lo, 24) as usize;
+        let mut name: Vec<u8> = (0..len)
+            .map(|_| match rng.below(12) {
+                0 => b'/',
+                1 => b'_',
+                2 => *rng.pick(b" #.-+;:\r\t"),
+                3 => rng.range(b'0' as u64, b'9' as u64) as u8,
+                4..=6 => rng.range(b'A' as u64, b'Z' as u64) as u8,
+                _ => rng.range(b'a' as u64, b'z' as u64) as u8,
+            })
+            .collect();
+        if name.first() == Some(&b'#') {
+            name[0] = b'H';
+        }
+        if name == b"EXLT" {
+            name.push(b'2');
+        }
+        let id: i64 = match rng.below(8) {
+            0 => -1,
+            1 => 0,
+            2 => i32::MAX as i64,
+            3 => i32::MIN as i64,
+            4 => -(rng.below(100000) as i64),
+            _ => rng.below(100000) as i64,
+        };
+        es.push(format!("{}:{}", hex(&name), id));
+    }
+    let ver: i64 = match i % 5 { 0 => 2, 1 => i32::MAX as i64, 2 => i32::MIN as i64, 3 => -(rng.below(1000) as i64), _ => rng.below(1000) as i64 };
+    format!("names {} {}", ver, if es.is_empty() { "-".to_string() } else { es.join(",") })
+}
+
 pub fn generate(thorough: bool, seed: u64, out: &mut dyn Write) {
     let mut rng = Rng::new(seed, "C05");
 
@@ -280,39 +317,7 @@ pub fn generate(thorough: bool, seed: u64, out: &mut dyn Write) {
     // --- root lists -----------------------------------------------------------------------------
     let k = if thorough { 6_000 } else { 150 };
     for i in 0..k {
-        let n = match rng.below(5) { 0 => 0, 1 => 1, 2 | 3 => rng.range(2, 10), _ => rng.range(10, 60) } as usize;
-        let mut es = Vec::new();
-        for _ in 0..n {
-            let lo = if rng.chance(1, 30) { 0 } else { 1 };
-            let len = rng.range(lo, 24) as usize;
-            let mut name: Vec<u8> = (0..len)
-                .map(|_| match rng.below(12) {
-                    0 => b'/',
-                    1 => b'_',
-                    2 => *rng.pick(b" #.-+;:\r\t"),
-                    3 => rng.range(b'0' as u64, b'9' as u64) as u8,
-                    4..=6 => rng.range(b'A' as u64, b'Z' as u64) as u8,
-                    _ => rng.range(b'a' as u64, b'z' as u64) as u8,
-                })
-                .collect();
-            if name.first() == Some(&b'#') {
-                name[0] = b'H';
-            }
-            if name == b"EXLT" {
-                name.push(b'2');
-            }
-            let id: i64 = match rng.below(8) {
-                0 => -1,
-                1 => 0,
-                2 => i32::MAX as i64,
-                3 => i32::MIN as i64,
-                4 => -(rng.below(100000) as i64),
-                _ => rng.below(100000) as i64,
-            };
-            es.push(format!("{}:{}", hex(&name), id));
-        }
-        let ver: i64 = match i % 5 { 0 => 2, 1 => i32::MAX as i64, 2 => i32::MIN as i64, 3 => -(rng.below(1000) as i64), _ => rng.below(1000) as i64 };
-        writeln!(out, "names {} {}", ver, if es.is_empty() { "-".to_string() } else { es.join(",") }).unwrap();
+        writeln!(out, "{}", root_list(&mut rng, i)).unwrap();
     }
 
     // --- wide sub-row strides: i * data_offset + 2 (i + 1) crosses 65 535 ----------------------
@@ -328,6 +333,44 @@ pub fn generate(thorough: bool, seed: u64, out: &mut dyn Write) {
         let sh = sheet(&mut rng, true, ncols, region);
         let subs = move |_r: &mut Rng| -> usize { nsub };
         emit_sheet(&mut rng, out, &sh, 1, &subs, 1);
+    }
+
+    // --- mutated encodings (`mut <seed> <k> <case>`, Base/Mutate.lean): 1..3 damaged bytes in an
+    // encoded header / page / root list; the model of the code and the code must still agree.
+    // Own stream, so that the families above and below are what they were.
+    {
+        let mut mrng = Rng::new(seed, "C05-mut");
+        let n = if thorough { 8_000 } else { 80 };
+        for i in 0..n {
+            let mut lines: Vec<u8> = Vec::new();
+            let sub = mrng.chance(1, 2);
+            let ncols = match mrng.below(4) { 0 => mrng.range(1, 3), 1 | 2 => mrng.range(3, 10), _ => mrng.range(10, 24) } as usize;
+            // every 80th sheet has a wide fixed-size region (sub-row stride arithmetic near 65535)
+            let wide = i % 80 == 79;
+            let region = if wide { mrng.range(20_000, 65_535) as usize } else { 0 };
+            let sh = sheet(&mut mrng, sub || wide, ncols, region);
+            let nrows = if wide { 1 } else { (match mrng.below(4) { 0 => 1, 1 | 2 => mrng.range(2, 6), _ => mrng.range(6, 20) }) as usize };
+            let subs = move |r: &mut Rng| -> usize {
+                if wide {
+                    return r.range(2, 3) as usize;
+                }
+                (match r.below(10) { 0 => 1, 1..=7 => r.range(2, 5), _ => r.range(5, 24) }) as usize
+            };
+            // 3 queries for stored ids + 1 unknown id + the header alone, each with its own damage
+            emit_sheet(&mut mrng, &mut lines, &sh, nrows, &subs, 3);
+            writeln!(lines, "exh {}", sh.header_fields()).unwrap();
+            for l in String::from_utf8(lines).unwrap().lines() {
+                let k = 1 + mrng.below(3);
+                let mseed = mrng.next() >> 1;
+                writeln!(out, "mut {} {} {}", mseed, k, l).unwrap();
+            }
+        }
+        let n = if thorough { 4_000 } else { 40 };
+        for i in 0..n {
+            let k = 1 + mrng.below(3);
+            let mseed = mrng.next() >> 1;
+            writeln!(out, "mut {} {} {}", mseed, k, root_list(&mut mrng, i)).unwrap();
+        }
     }
 
     // --- sheets stored in a synthetic installation, read through GameData ----------------------
